@@ -66,6 +66,20 @@ def var_type(kind, first_atom):
     return VT[k][first_atom % len(VT[k])]
 
 
+def data_type(t):
+    """FstVhdlDataType the writer attaches (GHDL style SupVar attribute), from the VHDL type name"""
+    k, tn = t[0], t[1].lower()
+    if k in ("L", "B"):
+        return {"std_ulogic": 4, "std_logic": 6, "bit": 2}.get(tn, 0)
+    if k in ("LV", "BV"):
+        return {"std_ulogic_vector": 5, "std_logic_vector": 7, "bit_vector": 3}.get(tn, 0)
+    if k == "E":
+        return 1 if tn == "boolean" else 0
+    if k == "I":
+        return {"integer": 10, "natural": 12}.get(tn, 0)
+    return 11
+
+
 def render(rng, items, natoms, snapshot, steps, exp=-15):
     """exp: timescale exponent -15..0; all times must be multiples of 10^(exp+15) fs"""
     out = vcd_writer.VcdOut(rng)          # reuse the leaf bookkeeping (distinct signals, widths, kinds)
@@ -74,7 +88,20 @@ def render(rng, items, natoms, snapshot, steps, exp=-15):
     nvars = [0]
     handle_of = {}
 
-    def leaf_entry(name, rangetxt, atoms, kind, width, pk):
+    enum_handles = {}
+
+    def leaf_entry(name, rangetxt, atoms, kind, width, pk, t):
+        # attributes first: enum table (defined at first use) + reference, VHDL type name and data type
+        if t[0] == "E":
+            ek = (t[2], tuple(t[3]))
+            if ek not in enum_handles:
+                enum_handles[ek] = len(enum_handles) + 1
+                bits = vcd_writer.bits_for(len(t[3]))
+                codes = [format(i, "0%db" % bits) if bits else "0" for i in range(len(t[3]))]
+                txt = " ".join([t[2], str(len(t[3]))] + list(t[3]) + codes)
+                hier.extend(bytes([252, 0, 7]) + txt.encode() + b"\x00" + varint(enum_handles[ek]))
+            hier.extend(bytes([252, 0, 7]) + b"\x00" + varint(enum_handles[ek]))
+        hier.extend(bytes([252, 0, 2]) + t[1].encode() + b"\x00" + varint((1 << 10) | data_type(t)))
         key = tuple(atoms)
         is_new = key not in out.keys
         out.leaf(name, rangetxt, atoms, kind, width)
@@ -87,23 +114,23 @@ def render(rng, items, natoms, snapshot, steps, exp=-15):
     def declare(name, t, ids, pk):
         k = t[0]
         if k in ("L", "B"):
-            leaf_entry(name, "", ids[:1], "nine" if k == "L" else "bit", 1, pk)
+            leaf_entry(name, "", ids[:1], "nine" if k == "L" else "bit", 1, pk, t)
             return ids[1:]
         if k in ("LV", "BV"):
             n = max(0, vcd_writer.vec_len(t[2], t[3], t[4]))
             if n == 0:
                 return ids
-            leaf_entry(name, f"[{t[3]}:{t[4]}]", ids[:n], "nine" if k == "LV" else "bit", n, pk)
+            leaf_entry(name, f"[{t[3]}:{t[4]}]", ids[:n], "nine" if k == "LV" else "bit", n, pk, t)
             return ids[n:]
         if k == "E":
             w = max(1, vcd_writer.bits_for(len(t[3])))
-            leaf_entry(name, "", ids[:1], ("enum", w), w, pk)
+            leaf_entry(name, "", ids[:1], ("enum", w), w, pk, t)
             return ids[1:]
         if k == "I":
-            leaf_entry(name, "", ids[:1], "int", 32, pk)
+            leaf_entry(name, "", ids[:1], "int", 32, pk, t)
             return ids[1:]
         if k == "F":
-            leaf_entry(name, "", ids[:1], "real", 64, pk)
+            leaf_entry(name, "", ids[:1], "real", 64, pk, t)
             return ids[1:]
         if k == "R":
             scope(name, 15)
